@@ -45,7 +45,8 @@ def small_args(cmd):
     def shrink(a):
         a = gen.materialize(a)
         for k in list(a):
-            if k in cmd.size_args or k in ("tl",) or (cmd.name.startswith("atapassthrough") and k in ("fetures", "count", "extra_tl")):
+            ata_sizes = cmd.name.startswith("atapassthrough") and k in ("fetures", "count", "extra_tl") and a.get("t_length")
+            if k in cmd.size_args or k in ("tl",) or ata_sizes:
                 if isinstance(a[k], int):
                     a[k] %= 9
         if "data" in a and "blocksize" in a and a.get("data") is not None:
@@ -62,6 +63,19 @@ def small_args(cmd):
 def new_op():
     return st.sampled_from(CHEAP).flatmap(
         lambda n: st.tuples(st.just("new"), st.just(n), st.sampled_from(cmds.BY_NAME[n].tables()), small_args(cmds.BY_NAME[n])))
+
+
+@st.composite
+def focused_history(draw):
+    """histories whose commands come from one or two classes only: a command meets siblings of its own
+    class built with other arguments (other flag combinations, other widths), not just strangers."""
+    names = draw(st.lists(st.sampled_from(CHEAP), min_size=1, max_size=2, unique=True))
+    idx = st.integers(0, 7)
+    new = st.sampled_from(names).flatmap(
+        lambda n: st.tuples(st.just("new"), st.just(n), st.sampled_from(cmds.BY_NAME[n].tables()), small_args(cmds.BY_NAME[n])))
+    op = st.one_of(new, new, new, st.tuples(st.just("decode"), idx), st.tuples(st.just("encode"), idx),
+                   st.tuples(st.just("rebuild"), idx), st.tuples(st.just("drop"), idx))
+    return draw(st.lists(op, min_size=3, max_size=24))
 
 
 def op_strategy():
@@ -227,6 +241,20 @@ def marshall_twice(kind, value):
             b = bytes(cls.marshall_datain(d))
             c = bytes(cls.marshall_datain(fresh))
         expect(a == b == c, "mismatch:repeated_marshalling_differs", what=kind)
+        # read-modify-write: the MODE SENSE command's decoded result is handed to a MODE SELECT command;
+        # creating that other command leaves the first command's result what a decode of its data-in gives
+        import pyscsi.pyscsi.scsi_enum_command as ec
+
+        sel = cmds.BY_NAME["modeselect10" if ten else "modeselect6"].cls
+        with lib("ModeSense / ModeSelect"):
+            sense_cmd = cls(ec.spc.MODE_SENSE_10 if ten else ec.spc.MODE_SENSE_6, page_code=0x3F, alloclen=max(len(a), 8))
+            sense_cmd.datain[:len(a)] = a
+            sense_cmd.unmarshall()
+            before = copy.deepcopy(sense_cmd.result)
+            sel(ec.spc.MODE_SELECT_10 if ten else ec.spc.MODE_SELECT_6, sense_cmd.result)
+            again = cls.unmarshall_datain(sense_cmd.datain)
+        expect(sense_cmd.result == before and sense_cmd.result == again, "mismatch:creating_another_command_changed_a_result",
+               what=kind, before=before, after=sense_cmd.result)
     elif kind == "prout":
         cmd = cmds.BY_NAME["persistentreserveout"]
         arg = draw(None)
@@ -458,12 +486,13 @@ def enumerate_schedules(ctx):
 
 def run(ctx):
     common.search(ctx, "history", st.lists(op_strategy(), min_size=2, max_size=30), check_history, ctx.n(1600, 80000))
+    common.search(ctx, "history_focused", focused_history(), check_history, ctx.n(1600, 80000))
     common.search(ctx, "schedule", schedule_case(4 if ctx.thorough else 3), check_schedule, ctx.n(640, 80000))
     enumerate_schedules(ctx)
 
 
 def replay(ctx, subject, case):
-    if subject == "history":
+    if subject in ("history", "history_focused"):
         check_history([tuple(o) for o in case])
     else:
         check_schedule(case)
